@@ -83,6 +83,62 @@ fn zero_nonce_s(r: &[u8; 32], pk: &[u8; 32], kseed: &[u8; 32], msg: &[u8], mode:
     s
 }
 
+// ---------------------------------------------------------------------------------------------
+// The families of SignAlgebra.tla built concretely: points are (prime-order part) + (8-torsion part); for every shape
+// of public key {honest, mixed, neutral, small} and commitment {full, neutral/small} the torsion part of R is searched
+// (8 candidates) until the cofactorless equation [S]B = R + [k]A holds with k = H([dom2] R A M).  The generator only
+// builds cases; the verdict is the specification's (accept iff S reduced, R and A not of small order) and libsodium's.
+pub struct AlgCase { pub family: String, pub sig: Sig, pub pk: [u8; 32], pub accept: bool }
+pub fn algebra_cases(kseed: &[u8; 32], msg: &[u8], mode: &str, rng: &mut Rng) -> Vec<AlgCase> {
+    use curve25519_dalek::constants::{ED25519_BASEPOINT_POINT as B, EIGHT_TORSION};
+    use curve25519_dalek::edwards::EdwardsPoint;
+    use curve25519_dalek::scalar::Scalar;
+    use curve25519_dalek::traits::{Identity, IsIdentity};
+    let sha = |b: &[u8]| { let mut h = [0u8; 64]; unsafe { so::crypto_hash_sha512(h.as_mut_ptr(), b.as_ptr(), b.len() as u64) }; h };
+    let mut ab = [0u8; 32];
+    ab.copy_from_slice(&sha(kseed)[..32]);
+    ab[0] &= 248; ab[31] &= 127; ab[31] |= 64;
+    let a = Scalar::from_bytes_mod_order(ab);
+    let hk = |r: &[u8; 32], pk: &[u8; 32]| -> Scalar {
+        let mut buf: Vec<u8> = vec![];
+        if mode != "pure" { buf.extend_from_slice(b"SigEd25519 no Ed25519 collisions"); buf.push(1); buf.push(0); }
+        buf.extend_from_slice(r); buf.extend_from_slice(pk);
+        if mode != "pure" { buf.extend_from_slice(&sha(msg)); } else { buf.extend_from_slice(msg); }
+        Scalar::from_bytes_mod_order_wide(&sha(&buf))
+    };
+    let mut out: Vec<AlgCase> = vec![];
+    // public keys: (shape, point, secret scalar of its prime-order part)
+    let mut keys: Vec<(&str, EdwardsPoint, Scalar)> = vec![("honest", B * a, a), ("neutral", EdwardsPoint::identity(), Scalar::ZERO)];
+    for j in 1..8 { keys.push(("mixed", B * a + EIGHT_TORSION[j], a)); keys.push(("small", EIGHT_TORSION[j], Scalar::ZERO)); }
+    for (ashape, apt, asec) in keys.iter() {
+        let pkb = apt.compress().to_bytes();
+        for rshape in ["full", "torsion"] {
+            for _try in 0..2 {
+                let r = if rshape == "full" { let w: [u8; 32] = rng.arr(); let mut w64 = [0u8; 64]; w64[..32].copy_from_slice(&w); Scalar::from_bytes_mod_order_wide(&w64) } else { Scalar::ZERO };
+                if rshape == "full" && r == Scalar::ZERO { continue; }
+                for t in 0..8 {
+                    let rpt = B * r + EIGHT_TORSION[t];
+                    let rb = rpt.compress().to_bytes();
+                    let k = hk(&rb, &pkb);
+                    let s = r + k * asec;
+                    if B * s != rpt + apt * k { continue; }     // the torsion parts do not cancel for this candidate
+                    let rname = if rshape == "full" { "full" } else if rpt.is_identity() { "neutral" } else { "small" };
+                    let mut sig = [0u8; 64];
+                    sig[..32].copy_from_slice(&rb); sig[32..].copy_from_slice(s.as_bytes());
+                    let ok = rname == "full" && (*ashape == "honest" || *ashape == "mixed");
+                    out.push(AlgCase { family: format!("reduced/{}/{}", rname, ashape), sig, pk: pkb, accept: ok });
+                    if let Some(s2) = add_kl(s.as_bytes(), 1) {
+                        let mut sig2 = sig; sig2[32..].copy_from_slice(&s2);
+                        out.push(AlgCase { family: format!("unreduced/{}/{}", rname, ashape), sig: sig2, pk: pkb, accept: false });
+                    }
+                }
+                if rshape != "full" { break; }
+            }
+        }
+    }
+    out
+}
+
 /// `sign <table.json> <out.json> <seed> <Lmax> <nseeds> <first> <stride>`
 pub fn cmd_sign(args: &[String]) {
     let table: Value = serde_json::from_str(&std::fs::read_to_string(&args[0]).unwrap()).unwrap();
@@ -122,6 +178,27 @@ pub fn cmd_sign(args: &[String]) {
                     match g {
                         Ok(g) => if g != want { rep.fail(&format!("{}: signature differs from libsodium", name), json!({"len": len, "mode": mode, "seed": seed})); },
                         Err(e) => rep.fail(&format!("{}: signing failed", name), json!({"len": len, "err": e})),
+                    }
+                }
+            }
+            // ---- verification: the families of SignAlgebra.tla (equation-satisfying cases of every shape)
+            if len < 3 || len % 16 == 5 {
+                for mode in ["pure", "ph"] {
+                    for ac in algebra_cases(&kseed, &msg, mode, &mut rng) {
+                        rep.count(&format!("family:{}", ac.family));
+                        rep.case(&format!("alg|{}|{}|{}|{}", ac.family, len, sd, mode));
+                        let sod = if mode == "pure" { so_verify(&ac.sig, &msg, &ac.pk) } else { so_verify_ph(&ac.sig, &msg, &ac.pk) };
+                        if sod != ac.accept { rep.fail("SignAlgebra.tla's verdict differs from libsodium (specification error)", json!({"family": ac.family, "sodium": sod, "sig": hex(&ac.sig), "pk": hex(&ac.pk)})); continue; }
+                        for (name, vf) in verifiers(mode) {
+                            rep.evaluations += 1;
+                            match catch(|| vf(&ac.sig, &msg, &ac.pk)) {
+                                Ok(v) => if v != ac.accept {
+                                    let k = if v { format!("{}: accepts an equation-satisfying forgery of family {}", name, ac.family) } else { format!("{}: rejects a valid signature of family {} (libsodium accepts)", name, ac.family) };
+                                    rep.fail(&k, json!({"len": len, "mode": mode, "seed": seed, "sig": hex(&ac.sig), "pk": hex(&ac.pk)}));
+                                },
+                                Err(pn) => rep.fail(&format!("{}: panicked", name), json!({"family": ac.family, "panic": pn})),
+                            }
+                        }
                     }
                 }
             }
